@@ -332,7 +332,12 @@ func (p *c03) Run(i int) (res fw.Result) {
 		return
 	}
 	var pol gen.Policy = gen.Canon{}
-	if i%2 == 1 {
+	switch {
+	case i%8 == 3:
+		pol = gen.Vast{}
+	case i%8 == 5:
+		pol = gen.Wide{}
+	case i%2 == 1:
 		pol = gen.Tight{}
 	}
 	lib := runLib(prog, pol, false)
